@@ -5,6 +5,7 @@
 pub mod c09;
 pub mod c13;
 pub mod c15;
+pub mod c16;
 
 use std::time::Duration;
 
